@@ -369,4 +369,62 @@ def TaOK (via : Bool) : GoTy → GoVal → Bool
   | .ptr e, .ptr x => TaOK false e x
   | _, _ => true
 
+/-! ### flat structs through a derived object type
+
+  reflector.go  TypeFromReflect / InitializerFromTagged / ReflectFieldTags → `Field` (attribute name = tag `name` or the
+                first-to-lower Go name; attribute type = `typeOf`; a pointer field is Optional with the implicit value undef)
+  objecttype.go createAttributesInfo (required attributes first, then those with a value)       → `attrOrder`
+  objectvalue.go reflectedObject.Get / InitHash (`wrapReflected` of the field; an optional attribute whose value equals
+                its default is omitted)                                                          → `fieldVal`, `initHash`
+  objecttype.go createNewFunction: the named-argument dispatch checks the init hash against the init Struct type, the
+                positional one checks every argument against its attribute type                  → `newNamed`, `newPos`
+  objectvalue.go setValues (`ReflectTo` of every value into its field, a missing one is undef)   → `newNamed`, `newPos`
+  Flat = the field types are struct-free modelled types and no field is itself an interface{} (such a field wraps to a
+  Runtime value: not modelled). -/
+
+structure Field where
+  name : String
+  ty : GoTy
+  deriving Repr, Inhabited
+
+def Field.isOpt (f : Field) : Bool := match f.ty with | .ptr _ => true | _ => false
+
+def Val.isUndef : Val → Bool | .undef => true | _ => false
+
+def fieldVal (fv : Field × GoVal) : Val := wrap false fv.1.ty fv.2
+
+def attrOrder {α : Type} (fs : List (Field × α)) : List (Field × α) :=
+  fs.filter (fun x => !x.1.isOpt) ++ fs.filter (fun x => x.1.isOpt)
+
+def initHash (fvs : List (Field × GoVal)) : List (Val × Val) :=
+  (attrOrder fvs).filterMap fun fv =>
+    if fv.1.isOpt && (fieldVal fv).isUndef then none else some (.str fv.1.name, fieldVal fv)
+
+def lookupAttr (n : String) : List (Val × Val) → Option Val
+  | [] => none
+  | (k, w) :: r => match k with
+    | .str s => if s = n then some w else lookupAttr n r
+    | _ => lookupAttr n r
+
+def knownKey (fs : List Field) : Val → Bool
+  | .str s => fs.any fun f => f.name = s
+  | _ => false
+
+/-- `px.New(T, initHash)` through the named-argument dispatch, then `ReflectTo` into a fresh struct: the field values in
+    declaration order, `none` when the init hash is not an instance of the init Struct type -/
+def newNamed (r32 : Nat → Nat) (fs : List Field) (ih : List (Val × Val)) : Option (List GoVal) :=
+  if fs.all (fun f => match lookupAttr f.name ih with
+                      | some w => inst (typeOf f.ty) w
+                      | none => f.isOpt) && ih.all (fun kv => knownKey fs kv.1)
+  then mapOpt (fun f => reflectTo r32 f.ty ((lookupAttr f.name ih).getD .undef)) fs
+  else none
+
+/-- `px.New(T, v₁, …, vₙ)` through the positional dispatch (one argument per attribute), then `ReflectTo` -/
+def newPos (r32 : Nat → Nat) (fvs : List (Field × GoVal)) : Option (List GoVal) :=
+  if fvs.all (fun fv => inst (typeOf fv.1.ty) (fieldVal fv))
+  then mapOpt (fun fv => reflectTo r32 fv.1.ty (fieldVal fv)) fvs
+  else none
+
+def flatField (f : Field) : Bool := Modelled f.ty && (match f.ty with | .iface => false | _ => true)
+
 end Pcore.Reflect
